@@ -311,6 +311,8 @@ def run_history(ctx, job, pname, hist):
                 cfg.ls = [p, p2]
                 cfg.items = [{"s": p, "inner": {"s": p2}}]
                 cfg.ts = [{"s": p}]
+                for k in [k for k in model.secrets if "[" in k]:
+                    del model.secrets[k]          # the lists were replaced as a whole
                 model.secrets.update({"s": p, "sub.s": p, "sub.deep.s": p, "t.s": p, "ls[0]": p, "ls[1]": p2, "items[0].s": p, "items[0].inner.s": p2, "ts[0].s": p})
             elif op == "assign-tree":
                 cfg.load_tree({"s": p, "sub": {"s": p, "deep": {"s": p2}}, "t": {"s": p}, "ls": [p], "items": [{"s": p2, "inner": {"s": p}}], "ts": [{"s": p2}]})
